@@ -78,6 +78,9 @@ Section Engine.
     combine cfg_channels (running (map nbins cfg_channels) 0).
   Definition nmaindata : nat := fold_right Nat.add O (map nbins cfg_channels).
 
+  Section Hot.
+  (* the three sorted lists of the configuration, computed once *)
+  Variables (chs smps : list string) (mods : list (string * string)).
   (* ------------------------------------------------------------------ pdf._nominal_and_modifiers_from_spec, step 2 *)
   (* helper.setdefault(c, {})[s] = (sample, moddict): same-named channels merge, a later same-named sample
      overwrites; moddict[key] = x: a later modifier with the same type/name overwrites *)
@@ -102,10 +105,10 @@ Section Engine.
   Definition nominal_lengths_ok : bool :=
     forallb (fun cn => forallb (fun sn => match cell cn sn with
                                           | Some s => Nat.eqb (length (s_data s)) (nbins cn) | None => true end)
-                               cfg_samples) cfg_channels.
+                               smps) chs.
 
   (* per (modifier key, sample): builder data, blockwise by sorted channel *)
-  Definition mods_of (t : mtype) : list (string * string) := filter (fun k => String.eqb (snd k) (tyname t)) cfg_modifiers.
+  Definition mods_of (t : mtype) : list (string * string) := filter (fun k => String.eqb (snd k) (tyname t)) mods.
   Definition names_of (t : mtype) : list string := map fst (mods_of t).
   Definition mdlist (m : modifier) : list V := match m_data m with MDList l => l | _ => [] end.
   Definition mdlo (m : modifier) : list V := match m_data m with MDHisto lo _ => lo | _ => [] end.
@@ -113,11 +116,11 @@ Section Engine.
   Definition mdnlo (m : modifier) : V := match m_data m with MDNorm lo _ => lo | _ => 1 end.
   Definition mdnhi (m : modifier) : V := match m_data m with MDNorm _ hi => hi | _ => 1 end.
   (* total lengths compared by the builders' finalize (data concatenated over channels) *)
-  Definition nom_len (sn : string) : nat := fold_right Nat.add O (map nbins cfg_channels).
+  Definition nom_len (sn : string) : nat := fold_right Nat.add O (map nbins chs).
   Definition data_len (f : modifier -> list V) (k : string * string) (sn : string) : nat :=
-    fold_right Nat.add O (map (fun cn => match cellmod cn sn k with Some m => length (f m) | None => nbins cn end) cfg_channels).
+    fold_right Nat.add O (map (fun cn => match cellmod cn sn k with Some m => length (f m) | None => nbins cn end) chs).
   Definition lengths_ok (t : mtype) (f : modifier -> list V) : bool :=
-    forallb (fun k => forallb (fun sn => Nat.eqb (data_len f k sn) (nom_len sn)) cfg_samples) (mods_of t).
+    forallb (fun k => forallb (fun sn => Nat.eqb (data_len f k sn) (nom_len sn)) smps) (mods_of t).
 
   (* ------------------------------------------------------------------ required paramsets *)
   Record req := { r_type : ptype; r_n : nat; r_scalar : bool;
@@ -161,25 +164,25 @@ Section Engine.
   (* the first declaring cell in the walk (sorted channel, sorted sample, sorted modifier) registers the paramset *)
   Definition walk_decls (t : mtype) : list (string * (string * string * modifier)) :=
     flat_map (fun cn => flat_map (fun sn => flat_map (fun k =>
-       match cellmod cn sn k with Some m => [(fst k, (cn, sn, m))] | None => [] end) (mods_of t)) cfg_samples) cfg_channels.
+       match cellmod cn sn k with Some m => [(fst k, (cn, sn, m))] | None => [] end) (mods_of t)) smps) chs.
   Definition first_decls (t : mtype) : list (string * (string * string * modifier)) := dedup_first fst (walk_decls t) [].
 
   (* staterror_builder.finalize *)
-  Definition gpos : list (string * nat) := flat_map (fun cn => tab (nbins cn) (fun b => (cn, b))) cfg_channels.
-  Definition carries (k : string * string) (sn : string) : bool := existsb (fun cn => declared cn sn k) cfg_channels.
+  Definition gpos : list (string * nat) := flat_map (fun cn => tab (nbins cn) (fun b => (cn, b))) chs.
+  Definition carries (k : string * string) (sn : string) : bool := existsb (fun cn => declared cn sn k) chs.
   Definition stat_nomsall (k : string * string) (cn : string) (b : nat) : V :=
-    sumV (map (fun sn => nomf cn sn b) (filter (carries k) cfg_samples)).
+    sumV (map (fun sn => nomf cn sn b) (filter (carries k) smps)).
   Definition uncf (cn sn : string) (k : string * string) (b : nat) : V :=
     match cellmod cn sn k with Some m => nth b (mdlist m) 0 | None => 0 end.
   Definition stat_relvar (k : string * string) (cn : string) (b : nat) : V :=
     let tot := stat_nomsall k cn b in
-    sumV (map (fun sn => if is_pos tot then (uncf cn sn k b / tot) * (uncf cn sn k b / tot) else 0) cfg_samples).
-  Definition first_carrier (k : string * string) : option string := find (carries k) cfg_samples.
-  Definition last_carrier (k : string * string) : option string := last_find (carries k) cfg_samples.
+    sumV (map (fun sn => if is_pos tot then (uncf cn sn k b / tot) * (uncf cn sn k b / tot) else 0) smps).
+  Definition first_carrier (k : string * string) : option string := find (carries k) smps.
+  Definition last_carrier (k : string * string) : option string := last_find (carries k) smps.
   Definition maskrow (k : string * string) (sn : string) : list bool := map (fun p => declared (fst p) sn k) gpos.
   Definition stat_masks_consistent (k : string * string) : bool :=
     match first_carrier k with
-    | Some s0 => forallb (fun sn => negb (carries k sn) || list_eqb Bool.eqb (maskrow k sn) (maskrow k s0)) cfg_samples
+    | Some s0 => forallb (fun sn => negb (carries k sn) || list_eqb Bool.eqb (maskrow k sn) (maskrow k s0)) smps
     | None => true end.
   Definition stat_vars (k : string * string) : list V :=
     match first_carrier k with
@@ -319,7 +322,7 @@ Section Engine.
         end
     end.
 
-  Definition build : result model :=
+  Definition build_hot : result model :=
     if has_dup shapesys_names_listed then Err EInvalidModel else
     if negb nominal_lengths_ok then Err EInvalidModel else
     if negb (lengths_ok Histosys mdlo && lengths_ok Histosys mdhi) then Err EInvalidModifier else
@@ -355,7 +358,7 @@ Section Engine.
       | [] => O
       | c :: t => if String.eqb c cn then (if declared c sn k then b else O)
                   else ((if declared c sn k then nbins c else O) + go t)%nat
-      end in go cfg_channels.
+      end in go chs.
   (* access field entry of shapesys / staterror at (cn, b) *)
   Definition access_binwise (k : string * string) (cn : string) (b : nat) : nat :=
     match last_carrier k with
@@ -390,10 +393,10 @@ Section Engine.
     let fac := prodV (flat_map (fun t => map (fun k => factor t k cn sn b) (mods_of t)) mult_types) in
     clipv (clip_sample st) (fac * nom_plus_delta).
   Definition rate (cn : string) (b : nat) : V :=
-    clipv (clip_bin st) (sumV (map (fun sn => by_sample cn sn b) cfg_samples)).
-  Definition expected_actualdata : list V := flat_map (fun cn => tab (nbins cn) (rate cn)) cfg_channels.
-  Definition expected_by_sample : list (list V) :=
-    map (fun sn => flat_map (fun cn => tab (nbins cn) (by_sample cn sn)) cfg_channels) cfg_samples.
+    clipv (clip_bin st) (sumV (map (fun sn => by_sample cn sn b) smps)).
+  Definition expected_actualdata_hot : list V := flat_map (fun cn => tab (nbins cn) (rate cn)) chs.
+  Definition expected_by_sample_hot : list (list V) :=
+    map (fun sn => flat_map (fun cn => tab (nbins cn) (by_sample cn sn)) chs) smps.
 
   (* constraint terms, walking auxdata_order with one running index over the auxiliary data *)
   Inductive term := TPois (n lam : V) | TNorm (x mu var : V).
@@ -409,17 +412,26 @@ Section Engine.
         | PPoisson => tab (p_n p) (fun i => TPois (nth (k + i) aux 0) (par (p_start p + i) * fac_of p i)) ++ cterms t aux (k + p_n p)
         end
     end.
-  Definition expected_auxdata : list V :=
+  Definition expected_auxdata_hot : list V :=
     flat_map (fun p => match p_type p with
                        | PUnconstrained => []
                        | PNormal => tab (p_n p) (fun i => par (p_start p + i))
                        | PPoisson => tab (p_n p) (fun i => par (p_start p + i) * fac_of p i) end) (md_psets md).
   Definition main_terms (maindata : list V) : list term :=
-    map (fun nl => TPois (fst nl) (snd nl)) (combine maindata expected_actualdata).
-  Definition logpdf_terms (data : list V) : result (list term) :=
+    map (fun nl => TPois (fst nl) (snd nl)) (combine maindata expected_actualdata_hot).
+  Definition logpdf_terms_hot (data : list V) : result (list term) :=
     if negb (Nat.eqb (length pars) (md_npars md)) then Err EInvalidPdfParameters else
     if negb (Nat.eqb (length data) (nmaindata + length (md_auxdata md))) then Err EInvalidPdfData else
     Ok (main_terms (firstn nmaindata data) ++ cterms (md_psets md) (skipn nmaindata data) 0).
+  End Hot.
+  Definition build : result model := build_hot cfg_channels cfg_samples cfg_modifiers.
+  Definition expected_actualdata (st : settings) (md : model) (pars : list V) : list V :=
+    expected_actualdata_hot cfg_channels cfg_samples cfg_modifiers st md pars.
+  Definition expected_by_sample (st : settings) (md : model) (pars : list V) : list (list V) :=
+    expected_by_sample_hot cfg_channels cfg_samples cfg_modifiers st md pars.
+  Definition expected_auxdata (md : model) (pars : list V) : list V := expected_auxdata_hot md pars.
+  Definition logpdf_terms (st : settings) (md : model) (pars data : list V) : result (list term) :=
+    logpdf_terms_hot cfg_channels cfg_samples cfg_modifiers st md pars data.
   End WithSpec.
 End Engine.
 Arguments TPois {N}. Arguments TNorm {N}.
